@@ -56,6 +56,9 @@ class C01Gen(progs.ProgGen):
             return r.choice(KEY_VALUES)
         n = r.randint(0, 8)
         s = r.choice(progs.KEY_ALPHA + '_') + ''.join(r.choice(progs.KEY_ALPHA + '0123456789_-') for _ in range(n))
+        if r.random() < 0.3:
+            i = r.randint(1, len(s))
+            s = s[:i] + '-' + s[i:]
         return s
 
     def fields(self, others, generics, lo=0, hi=5):
@@ -217,13 +220,59 @@ def truth_groups(it, case):
     return []
 
 
+EXT = {'typescript': 'ts', 'kotlin': 'kt', 'swift': 'swift', 'scala': 'scala', 'go': 'go', 'python': 'py'}
+
+
+def gen_cfg_binary(rng, lang):
+    """a configuration the command line can express; the binary always writes the version header"""
+    c = {'no_version_header': False, 'version': vf.core_version()}
+    if lang == 'kotlin':
+        c.update(package=rng.choice(['p', 'com.agilebits.onepassword']), prefix=rng.choice(['', 'OP', 'X_']), module_name=rng.choice(['', 'm']))
+    elif lang == 'swift':
+        c.update(prefix=rng.choice(['', 'OP', 'X_']))
+    elif lang == 'scala':
+        c.update(package=rng.choice(['p.q', 'com.x.y']), module_name=rng.choice(['', 'm']))
+    elif lang == 'go':
+        c.update(package=rng.choice(['p', 'types']))
+    return c
+
+
+def run_binary(args):
+    """the real typeshare binary on one source file in a fresh directory -> libdrive-shaped answer"""
+    lang, cfg, src = args
+    d = vf.tmpdir('verif-c01-')
+    (d / 'src').mkdir()
+    (d / 'src' / 'lib.rs').write_text(src)
+    out = d / f'out.{EXT[lang]}'
+    flags = []
+    for key, flag in {'kotlin': [('package', '--java-package'), ('prefix', '--kotlin-prefix'), ('module_name', '--module-name')],
+                      'swift': [('prefix', '--swift-prefix')],
+                      'scala': [('package', '--scala-package'), ('module_name', '--scala-module-name')],
+                      'go': [('package', '--go-package')]}.get(lang, []):
+        if cfg.get(key):
+            flags += [flag, cfg[key]]
+    try:
+        pr = subprocess.run(['timeout', '20', str(vf.TYPESHARE), '--lang', lang, '-o', str(out)] + flags + [str(d / 'src')],
+                            capture_output=True, text=True, timeout=40, cwd=d)
+        rc, err = pr.returncode, pr.stderr
+    except subprocess.TimeoutExpired:
+        rc, err = 124, 'timeout'
+    text = out.read_text() if out.exists() else None
+    shutil.rmtree(d, ignore_errors=True)
+    if rc == 0 and text is not None:
+        return {'ok': text}
+    if rc == 0:
+        return {'none': True}
+    return {'panic': f'exit {rc}'} if rc in (101, 124, 134) else {'err': err[-300:]}
+
+
 def _extract_job(args):
     lang, text = args
     return obs_impl(lang, text)
 
 
 # ---------------------------------------------------------------- one batch
-def run_batch(chk, cases, replaying=False):
+def run_batch(chk, cases, via_binary=False):
     """cases: list of (prog, src, {lang: cfg}).  Returns the number of violations reported."""
     nviol = 0
     srcs = [c[1] for c in cases]
@@ -236,7 +285,12 @@ def run_batch(chk, cases, replaying=False):
     case = {q: r.get('ok') for q, r in zip(reqs, case_res)}
     # real back ends and the model
     jobs = [(k, lang) for k, c in enumerate(cases) for lang in LANGS]
-    impl = vf.impl([{'cmd': 'generate', 'lang': lang, 'cfg': cases[k][2][lang], 'src': srcs[k], 'target_os': []} for k, lang in jobs])
+    if via_binary:
+        with concurrent.futures.ThreadPoolExecutor(max_workers=vf.NPROC) as ex:
+            impl = list(ex.map(run_binary, [(lang, cases[k][2][lang], srcs[k]) for k, lang in jobs]))
+        chk.count('files_through_the_binary', len(jobs))
+    else:
+        impl = vf.impl([{'cmd': 'generate', 'lang': lang, 'cfg': cases[k][2][lang], 'src': srcs[k], 'target_os': []} for k, lang in jobs])
     model = vf.model([f'(decls_src {lang} {back.cfg_sx(cases[k][2][lang])} {asts[k]["ok"]} {asts[k]["tstrs"]} ())' for k, lang in jobs])
     with concurrent.futures.ProcessPoolExecutor(max_workers=vf.NPROC) as ex:
         iobs = list(ex.map(_extract_job, [(lang, r['ok']) if 'ok' in r else (lang, '') for (k, lang), r in zip(jobs, impl)], chunksize=16))
@@ -379,7 +433,7 @@ def run(chk):
                        '(no compilers installed): @SerialName / CodingKeys raw value / json tag / quoted property / alias= carry the key, a bare member its name',
                        'syn is not modelled (AST obtained from the same text through harness/libdrive ast)',
                        'C16 covers identifiers outside snake_case; C03 covers which members appear']
-    chk.prepare(need_cli=False)
+    chk.prepare(need_cli=True)
     if not chk.harness_ok:
         return
     n = 1500 if chk.tier == 'quick' else 30000
@@ -388,6 +442,15 @@ def run(chk):
     for i in range(0, n, batch):
         cases = [make_case(chk.rng, s) for s in seeds[i:i + batch]]
         run_batch(chk, cases)
+    if chk.cli_ok:      # the whole pipeline through the real binary (command-line configuration)
+        import random
+        nb = 40 if chk.tier == 'quick' else 600
+        bcases = []
+        for sd in [chk.rng.getrandbits(32) for _ in range(nb)]:
+            prog, src, _ = make_case(chk.rng, sd)
+            r = random.Random(sd + 1)
+            bcases.append((prog, src, {lang: gen_cfg_binary(r, lang) for lang in LANGS}))
+        run_batch(chk, bcases, via_binary=True)
     report_soft(chk)
     if chk.tier == 'thorough':
         serde_ground_truth(chk, seeds[:1500])
